@@ -123,6 +123,15 @@ def extra_vectors(name, rng, n=6):
     if short in ('DnsRecordTxtValueSpfDirectiveA', 'DnsRecordTxtValueSpfDirectiveMx'):
         mech = b'a' if short.endswith('A') else b'mx'
         return [rng.choice([b'', b'+', b'-', b'~', b'?']) + mech + rng.choice([b'', b':example.com']) + spf_cidr(rng) for _ in range(n)]
+    if short in ('SshHostKeyECDSA', 'SshHostPublicKeyVariant'):
+        # nistp521: the one curve of the library's tests whose field size is not a whole number of bytes; coordinates with
+        # and without the top bits set (RFC 5656 3.1: 66 octets each)
+        def s4(b):
+            return len(b).to_bytes(4, 'big') + b
+        out = []
+        for x, y in ((2 ** 520 + 12345, 2 ** 521 - 99), (2 ** 519 + 7, 2 ** 518 + 5), (rng.getrandbits(521) | (1 << 520), rng.getrandbits(512) | 3)):
+            out.append(s4(b'ecdsa-sha2-nistp521') + s4(b'nistp521') + s4(b'\x04' + x.to_bytes(66, 'big') + y.to_bytes(66, 'big')))
+        return out
     if short == 'SshKeyExchangeInit':
         # a boolean octet other than 0 / 1 is TRUE (RFC 4251 section 5): accepted, and canonicalised by compose in one step
         from harness import sweep as _sweep
